@@ -125,7 +125,7 @@ CHECKS = {
     "C16": dict(level="exploration", parts=[
         dict(prop="REG", harness="api_pbt", quick=dict(count=0, workers=1), thorough=dict(count=0, workers=1)),  # regression scenarios
         dict(prop="C16", harness="api_pbt", quick=dict(count=1600, workers=8), thorough=dict(count=50000, workers=16),
-             essential=_ALL_SCHEMAS + ["on-disk", "in-memory", "files-compared", "track-with-performance-data"]),
+             essential=_ALL_SCHEMAS + ["on-disk", "in-memory", "files-compared", "track-with-performance-data", "non-finite-values-stored"]),
         dict(prop="C16.table", harness="table_pbt", quick=dict(count=1200, workers=4), thorough=dict(count=40000, workers=16),
              essential=_V2_SCHEMAS + ["on-disk", "in-memory", "files-compared", "dangling-entities", "value-related-rows"])]),
     "C02": dict(level="exploration", parts=[
@@ -301,7 +301,7 @@ RULES = {
            "2^64-1; removed handles are only copied, assigned, destroyed and asked for id()/is_valid(). Oracle: every call returns or throws "
            "std::exception; no ASan/UBSan/_GLIBCXX_ASSERTIONS/assert report; per-case watchdog 60 s; removed handles report !is_valid(). "
            "Non-trivial = a hostile call on a state with >=1 track and >=1 crate.",
-    "C16": "Case = schema + (on-disk or in-memory) + history as C10; then an observation phase: Obs twice and verify() twice. Four signals: "
+    "C16": "Case = schema + (on-disk or in-memory) + history as C10 (one case in three then also stores non-finite doubles - NaN loudness / main cue / cue offset / bpm / grid offset, infinite loop end - where the setters accept them); then an observation phase: Obs twice and verify() twice. Four signals: "
            "the sqlite3_step shim saw no non-read-only statement, sqlite3_total_changes did not move, both Obs are equal, and for on-disk "
            "libraries a digest of every file in the database directory is unchanged by database_exists(), load_database(), Obs and verify() "
            "on the reloaded library. table part: the same write monitor around every observing operation of the 2.x table API (track_table "
